@@ -151,7 +151,14 @@ def argument_lattice(ctx, rec):
             if verb == "SETFH":
                 vectors = [[]] + [list(v) for k in (1, 2, 3, 4, 5) for v in itertools.product([-1, 0, 63, 64, 935000, 890000], repeat=k)][::(1 if ctx.tier == "thorough" else 5)]
             s = None
-            for args in vectors:
+            # twice, the second time backwards: every vector is also tried from the state the "later" vectors leave behind
+            # (a rejected command must not change settings made by an accepted one)
+            inter = []
+            if verb != "SETFH":
+                for single in [[a] for a in G] + [[]]:
+                    for pair in ([1, 2], [2, 7], [0, 63], [-47, 2]):
+                        inter += [pair, single]          # a (mostly accepted) two-argument form directly before every shorter form
+            for args in vectors + vectors[::-1] + inter:
                 try:
                     if s is None:
                         s = Session(cfg, {"reply", "power", "clock", "settings"}, "c05")
